@@ -20,7 +20,7 @@ def ref_of_content(c, patched_data=None):
 class C01(PropertyCheck):
     pid = "C01"
     source_tables = ["BIN_HEADER"]   # tables / constants regenerated from /repo's source (gen/srctables.py)
-    release_too = False
+    release_too = True       # both build profiles (review 2: the both-modes theorems must be tied to a release build too)
     rule = ("streams: (A) archives built through the public API from random well-formed contents (sizes 0..256 quick / ..16384 thorough, "
             "unaligned lengths, labels on the end address, several labels per address, strings equal to label names, empty strings, "
             "non-ASCII lossless Shift-JIS, c-strings mixed with strings), serialized, parsed back, re-serialized; (B) files produced by an "
@@ -115,6 +115,26 @@ class C01(PropertyCheck):
                             cases.append(Case(pyarchive.render_case(e, 0, ops), "exhaustive-small"))
         return cases
 
+    def extra_checks(self, ctx):
+        """The 32-bit size guard of serialize (finding F25) cannot be exercised by a case line (a 4 GiB archive); it is read
+        from the source the harness was built against: exactly one `if file_size > <u32::MAX> { return Err(..` before the single
+        `bytes.resize(` of BinArchive::serialize.  Without it an image of 4 GiB or more is written with truncated header fields
+        and parses back as a different archive - the property's first sentence fails on that input."""
+        import srctables
+        from rustsrc import AnchorError
+        try:
+            tabs = srctables.x_binheader(REPO)
+            lim = list(tabs[0].value)[11]
+        except (AnchorError, IndexError) as ex:
+            return [("BinArchive::serialize of an archive whose image is 4 GiB or more (e.g. 2^32 - 32 data bytes, no annotation)",
+                     "no size guard found before bytes.resize in serialize (%s): the image would be written with its 32-bit size fields "
+                     "truncated and parse back as a different archive (finding F25); model: Err (C01_serialize_smallest_rejected)" % str(ex)[:200])], \
+                   {"serialize_size_guard": "MISSING"}
+        if lim != (1 << 32) - 1:
+            return [("BinArchive::serialize size guard", "the guard accepts files up to %d bytes, the format's limit is 2^32 - 1" % lim)], \
+                   {"serialize_size_guard": lim}
+        return [], {"serialize_size_guard": lim}
+
     def nontrivial(self, case, impl_out):
         last = impl_out.split(" ; ")[-1]
         return ("t=[]" not in last or "rc=[]" not in last) and ("p=[]" not in last or "l=[]" not in last)
@@ -172,23 +192,35 @@ TB = ("Trusted: Coq 8.16.1 kernel (vm_compute, no native_compute), no axioms (Pr
 MANIFEST = dict(
     text="Theorems about executable Gallina models of BinArchive::serialize and from_bytes: the parser recovers the content from EVERY "
          "conforming file (C01_parser_correct: any table order, strings anywhere, shared or duplicated; the format relation is written "
-         "independently of both functions), serialize succeeds on the property's domain and its image conforms and is well-formed "
-         "(C01_serialize_conforms, C01_image_wellformed), and the round trip (C01_round_trip) preserves raw bytes outside annotated cells, "
-         "strings, pointers, labels in per-address order and makes every pending c-string readable, both endiannesses, strings and "
-         "c-strings mixed. 'Same size' is proved in the reading that is true of the format: size' = size + |c-string pool padded to 4|, "
-         "equal sizes when no c-string is pending (C01_same_size_partial); the literal reading is refuted with a pending c-string "
-         "(C01_same_size_full / C01_same_size_refuted: 14 -> 18 bytes). Tied to /repo on every run: the extracted model is compared "
-         "byte-for-byte (serialize) and state-for-state (from_bytes) with the real library on API-built archives, on files from an "
-         "independent reference writer with layout knobs, on the game files, on an exhaustive small family and on archives with empty "
-         "label buckets; an independent Python statement of the format (canonical image, expected re-parsed content) is the oracle on the "
-         "implementation's outputs.",
+         "independently of both functions). serialize carries the 32-bit guard of fix 524d15f (finding F25): on the property's domain it "
+         "succeeds EXACTLY when the image fits the 32-bit sizes of the format and otherwise returns an error in both arithmetic profiles "
+         "(C01_serialize_ok_iff_fits, C01_serialize_rejects_large; symbolic boundary C01_serialize_boundary / _largest_accepted / "
+         "_smallest_rejected at 2^32 - 1), never panics on any archive (C01_serialize_never_panics), and behind the guard no `as u32` "
+         "truncates. Hence the theorems about an image need no size hypothesis: EVERY successful serialize conforms, is well-formed "
+         "(header totals exact) and round-trips (C01_serialize_ok_conforms, C01_image_wellformed, C01_round_trip_ok: raw bytes outside "
+         "annotated cells, strings, pointers, labels in per-address order, every pending c-string readable, both endiannesses, strings "
+         "and c-strings mixed); the closed bound fits32 remains only as the sufficient condition under which an image is promised to "
+         "exist (C01_serialize_conforms, C01_round_trip). 'Same size' is proved in the reading that is true of the format: size' = size + "
+         "|c-string pool padded to 4|, equal sizes when no c-string is pending (C01_same_size_partial); the literal reading is refuted "
+         "with a pending c-string (C01_same_size_full / C01_same_size_refuted: 14 -> 18 bytes). Tied to /repo on every run: the extracted "
+         "model is compared byte-for-byte (serialize) and state-for-state (from_bytes) with the real library on API-built archives, on "
+         "files from an independent reference writer with layout knobs, on the game files, on an exhaustive small family and on archives "
+         "with empty label buckets; an independent Python statement of the format (canonical image, expected re-parsed content) is the "
+         "oracle on the implementation's outputs.",
     note=TB + "Domain = wf_archive (at most one annotation per cell, cells inside the data and not overlapping, targets and labels <= size, "
-              "NUL-free strings, NON-EMPTY label buckets) and fits32 (image below 4 GiB; beyond it the code truncates `as u32` silently - not "
-              "covered). Empty buckets are API-buildable (write_labels(a, []), delete_label of the last label); the format has no image for "
-              "them: read_labels is Some([]) before and None after the round trip in code and model (Example C01_example_empty_bucket, "
-              "stream empty-buckets); the labels (all_labels) are unchanged, which is the reading of 'the same labels' - that an archive with "
-              "empty buckets serializes like the one without them is checked by correspondence and oracle, not proved. No theorem derives "
-              "wf_archive from API histories (C03_invariant gives only cells-inside-data). "
+              "NUL-free strings, NON-EMPTY label buckets). Images of 4 GiB or more: REJECTED by serialize (proved about the model); the "
+              "rejection branch cannot be exercised by the correspondence - a 4 GiB archive neither fits the case-line protocol nor the "
+              "extracted model (a list of 2^32 numbers) - and is tied to the code by a SOURCE-LEVEL check run on every ./check C01 (exactly one "
+              "`if file_size > u32::MAX .. { return Err` before the single bytes.resize of serialize, else VIOLATION: reverting the fix is "
+              "reported) and by the source-table agreement of the guard constant "
+              "(BIN_HEADER entry 11 = u32::MAX, read from `if file_size > u32::MAX as usize` and required to precede bytes.resize; "
+              "gen/srctables_selftest.py mutates it) and by reading the seven lines of the fix; the reviewers' probe (notes/review2) is "
+              "the executable witness. Outside wf_archive a pointer TARGET or label address >= 2^32 is still written `as u32` (not in the "
+              "property's quantifier: targets and labels <= size). Empty buckets are API-buildable (write_labels(a, []), delete_label of "
+              "the last label); the format has no image for them: read_labels is Some([]) before and None after the round trip in code and "
+              "model (Example C01_example_empty_bucket, stream empty-buckets); the labels (all_labels) are unchanged, which is the reading "
+              "of 'the same labels' - that an archive with empty buckets serializes like the one without them is checked by correspondence "
+              "and oracle, not proved. No theorem derives wf_archive from API histories (C03_invariant gives only cells-inside-data). "
               "Modelled, not verified: HashMap order (association lists; theorems quantify over permutations), Cursor, Vec (A-std); strings "
               "are Shift-JIS encoded bytes (A-codec); the big-endian label order compares a sort key per name that is a parameter of the model "
               "(every theorem holds for every key function) and is supplied by the library's own decoder on every run.",
